@@ -69,6 +69,10 @@ CHECKS = {
    text="All expression trees up to the stated depth over fixed leaf alphabets (every operator, built-in, ordered operator pair), each printed with minimal and with full parenthesisation, are parsed and evaluated by the real parser/evaluator and compared (value, size, error class) with a reference evaluator written from the documentation; literal spellings and string escapes x encodings likewise; the depth<=1 family also through `#d` and constants in the whole assembler.",
    note="Reference evaluator re-derives division, shifts and bit operations by hand on num-bigint integers; inputs the documentation does not determine are classified Unspecified and carry no verdict (counted in evidence). Depth 6 over everything is not reachable; evidence states the completed depth."),
 
+ "C18": dict(level="model_checking", design="DESIGN.md §4 C18, §3.6",
+   technique="exhaustive enumeration of command lines (output-group sequences x formats x parameters x spellings x global options at every slot) against a reference CLI model parsed from the usage text; in-process driver and the real binary",
+   text="Complete mixed-radix products of output groups (quick: 1 and 2 groups, with and without one global option at every slot; thorough: 3-4 groups) over every documented format name with every parameter state (absent, default, every legal value, 0, 1, non-number, unknown/bare/doubled keys), wrong names, every output mode and input-name shape, every documented spelling of every global option, are run through driver::drive on a recording file server and, for complete sub-grids, through the real binary. The reference model is parsed at run time from src/usage_help.md (names, parameters, defaults, aliases, option spellings): accept/reject before assembling, written bytes = format_output with the documented parameters, exactly one file per non-print group under the given or derived name (never the input name), groups independent, quiet/iters/define/colour/help/version honoured.",
+   note="Spellings and defaults the usage text does not show (default format of a group without -f, undocumented aliases, detached --output FILE) carry no verdict. states = distinct (accepted command, file-set) configurations, transitions = groups processed. The defect found (unused define still writing output) was repaired (fix: 7589cff)."),
  "C17": dict(level="exploration", design="DESIGN.md §4 C17",
    technique="exhaustive enumeration of macro rules x calls x contexts, differential against the hand-inlined program and the reference assembler; functions against substituted bodies",
    text="Macro rules over every pair (thorough: triples) of inner instruction forms (6 base rules x operand from {argument, literal, block-local label, backward/forward global label, $}) x every local-label position x untyped/typed parameters x 5 argument pairs x prefixes/suffixes x nesting 0..2 must assemble to exactly the bits of the hand-inlined program (itself checked against the reference assembler); every depth<=1 function body over two parameters x 5 argument pairs equals the substituted expression; functions depending on $/labels called from productions behind a shrinking instruction equal their bodies in place; recursion depth 1..40 is a value or a clean, monotone error; unbounded recursion is an error.",
